@@ -652,14 +652,18 @@ class Model():
             left_field_name, right_field_name = \
                 self.get_association_field_names(association)
 
-            if asset in getattr(association, left_field_name):
-                opposite_field_name = right_field_name
-            else:
-                opposite_field_name = left_field_name
-
-            if opposite_field_name == field_name:
+            # The asset may be present in both fields (e.g. when it is
+            # associated with itself), so check each direction on its own.
+            if right_field_name == field_name and \
+                    asset in getattr(association, left_field_name):
                 associated_assets.extend(
-                    getattr(association, opposite_field_name)
+                    getattr(association, right_field_name)
+                )
+
+            if left_field_name == field_name and \
+                    asset in getattr(association, right_field_name):
+                associated_assets.extend(
+                    getattr(association, left_field_name)
                 )
 
         return associated_assets
